@@ -34,6 +34,24 @@ def oracle (prop callee : String) (src : Dyn) (impl : Outcome Dyn) : Option Stri
   else if prop == "C11" then CastSpec.binaryViolation callee (promised callee) src impl
   else none
 
+/-- The exact integer value of a number held by a carrier outside the supported set (`cv=` token of the
+    ext field, written by the harness for such sources only). -/
+def carriedValue (extS : String) : Option Int :=
+  (toks extS).findSome? fun t => if t.startsWith "cv=" then (dropS t 3).toInt? else none
+
+/-- C09 for a carrier outside the supported set: refusing it is fine; accepting it commits to its value —
+    the result is the integer of the target type with exactly that value, never a wrapped one. -/
+def carrierViolation (t : IntTy) (n : Int) (impl : Outcome Dyn) : Option String :=
+  match impl with
+  | .err _ => none
+  | .panic _ => some "panic"
+  | .ok (.int t' v) =>
+    if t' != t then some "wrong-result-type"
+    else if v != n then some "carried-value-changed"
+    else if !(t.inRange v) then some "out-of-range-result"
+    else none
+  | .ok _ => some "wrong-result-type"
+
 def runCase (prop callee srcS extS implS : String) : Result :=
   match Dyn.parse? srcS, parseOutcome implS with
   | some src, some impl =>
@@ -45,7 +63,13 @@ def runCase (prop callee srcS extS implS : String) : Result :=
       let is := showOutcome impl
       let isPanic := match impl with | .panic _ => true | _ => false
       let d := if isPanic then !(ms.startsWith "panic") else ms != is
-      let p := oracle prop callee src impl
+      let p0 := oracle prop callee src impl
+      let p := match p0, prop == "C09", src, carriedValue extS with
+        | none, true, .other _, some n =>
+          (match (intOfCaster? callee).orElse (fun _ => match promised callee with | some (.int t) => some t | _ => none) with
+           | some t => carrierViolation t n impl
+           | none => none)
+        | _, _, _, _ => p0
       let abstain := ms == "err EXT"
       match d, p with
       | false, none => ⟨"S", ""⟩
